@@ -13,9 +13,12 @@
   well-formed trees with coordinates inside `U`.
 
   Stage B (generic, any expression / loop order / style): `kernel_denote`, `kernel_dense`,
-  `kernel_content`, `style_irrelevant`, `lff_rows_eq_tf`, `loop_order_irrelevant`.
-  Stage A (instances, readable): `kernel_dot`, `elementwise`, `matvec`, `row_reduce`, `col_reduce`,
-  `matmul_all_orders`.
+  `kernel_content`, `kernel_content_list`, `kernel_content_points`, `style_irrelevant`,
+  `lff_rows_eq_tf`, `loop_order_irrelevant` + `swizzle_same_tensor` (the model of `swizzleRanks`
+  establishes its hypothesis), `tiling_irrelevant` + `splitUniform_tiles` (the model of
+  `splitUniform` establishes its hypothesis).
+  Stage A (instances, readable): `kernel_dot`, `kernel_elementwise`, `kernel_matvec`, `kernel_matvec_ki`,
+  `kernel_row_reduce`, `kernel_col_reduce`, `kernel_matmul_all_orders`.
 -/
 import FtProofs.Lemmas.KernelRun
 import FtProofs.Lemmas.KernelTile
@@ -119,6 +122,21 @@ theorem kernel_content_list (style : Style) (U : List κ) (hU : Asc U) (order : 
     refine ⟨hl, ?_, hne⟩
     rw [hv σ0 p hl, val_defaultTree, Int.zero_add, hval]
 
+/-- … in particular over all points of the shape: **the content of the output is the list of the
+    non-zero entries of the dense result, in lexicographic order** -/
+theorem kernel_content_points (style : Style) (U : List κ) (hU : Asc U) (order : List Nat) (ops : List (Cur κ))
+    (zr : List Nat) (hnd : order.Nodup) (hok : OpsOK U order ops) (hzr : zr.Sublist order) (σ0 : Nat → κ) :
+    content (0 : Int) zr.length (run style order ops zr (defaultTree (0 : Int) zr.length)) =
+      denseOn U order ops (fun σ => zr.map σ) σ0 (points U zr.length) := by
+  apply kernel_content_list style U hU order ops zr hnd hok hzr σ0 _ (points_sorted U hU zr.length)
+    (points_len U zr.length)
+  intro q hq hne
+  apply mem_points U zr.length q hq
+  intro x hx
+  apply Classical.byContradiction
+  intro hxU
+  exact hne (esum_outside U (prodVal ops) order zr q σ0 (fun w hw => hzr.subset hw) ⟨x, hx, hxU⟩)
+
 /-- **either intersection style**: two-finger (`&`), leader-follower, and leader-follower with the
     emptiness filter give outputs with the same value at every point -/
 theorem style_irrelevant [Inhabited κ] (s₁ s₂ : Style) (U : List κ) (hU : Asc U) (order : List Nat) (ops : List (Cur κ))
@@ -219,17 +237,21 @@ theorem tiling_irrelevant (s s' : Style) (step : Int) (U : List Int) (hU : Asc U
 
 /-- **`splitUniform` produces the tiled operand** (model of `Tensor.splitUniform(step, rankid=v)`
     with halo 0 and absolute coordinates, FtModel.Split / C08): for a well-formed operand with ranks
-    `pre ++ v :: post` whose coordinates lie inside the active range `[as, ae)` of the split rank, the
-    split tree, read with ranks `pre ++ v1 :: v :: post`, is `Tiled`. -/
+    `pre ++ v :: post` whose coordinates lie inside the active range `[as, ae)` of the split rank
+    (a universe closed under the tile map), the split tree is well-formed, stays inside the universe
+    and, read with ranks `pre ++ v1 :: v :: post`, is `Tiled`. -/
 theorem splitUniform_tiles (step as ae : Int) (hs : 0 < step) (hact : as < ae) (U : List Int)
-    (hUr : ∀ x ∈ U, as ≤ x ∧ x < ae) (pre post : List Nat) (v v1 : Nat)
+    (hUr : ∀ x ∈ U, as ≤ x ∧ x < ae) (htile : ∀ x ∈ U, tileOf step x ∈ U) (pre post : List Nat) (v v1 : Nat)
     (t : Tree Int Int (post.length + 1 + pre.length)) (r : Tree Int Int (post.length + 2 + pre.length))
     (hw : WF _ t) (hin : coordsInB U _ t = true)
     (hr : splitAt { op := .uniform step, act := some (as, ae) } (0 : Int) post.length pre.length t = some r) :
+    WF _ r ∧ coordsInB U _ r = true ∧
     Tiled step v v1
       (Cur.ofTree (pre ++ v :: post) (post.length + 1 + pre.length) (by simp; omega) t)
       (Cur.ofTree (pre ++ v1 :: v :: post) (post.length + 2 + pre.length) (by simp; omega) r) :=
-  splitUniform_tiled step as ae hs hact U hUr pre post v v1 t r hw hin hr
+  ⟨(splitAt_ok step as ae hs hact U hUr htile post.length pre.length t r hw hin hr).1,
+   (splitAt_ok step as ae hs hact U hUr htile post.length pre.length t r hw hin hr).2,
+   splitUniform_tiled step as ae hs hact U hUr pre post v v1 t r hw hin hr⟩
 
 end tiling
 
@@ -480,8 +502,8 @@ private def exb : Tree Int Int 1 := (show List (Int × Int) from [(2, 5), (3, 1)
 example : ∀ x ∈ ([0, 1, 2, 3] : List Int), tileOf 2 x ∈ ([0, 1, 2, 3] : List Int) := by decide
 example : splitAt { op := .uniform 2, act := some (0, 4) } (0 : Int) 0 0 exa = some exaT := by decide
 example : Tiled 2 0 1 (Cur.ofTree [0] 1 rfl exa) (Cur.ofTree [1, 0] 2 rfl exaT) :=
-  splitUniform_tiles 2 0 4 (by decide) (by decide) [0, 1, 2, 3] (by decide) [] [] 0 1 exa exaT
-    ((wfB_iff 1 exa).1 (by decide)) (by decide) (by decide)
+  (splitUniform_tiles 2 0 4 (by decide) (by decide) [0, 1, 2, 3] (by decide) (by decide) [] [] 0 1 exa exaT
+    ((wfB_iff 1 exa).1 (by decide)) (by decide) (by decide)).2.2
 -- dot product 3·5 + (-1)·1 = 14, untiled and tiled (both placements of the halves)
 #guard run .tf [0] [⟨[0], exa⟩, ⟨[0], exb⟩] [] (0 : Int) == (14 : Int)
 #guard run .tf [1, 0] [⟨[1, 0], exaT⟩, ⟨[0], exb⟩] [] (0 : Int) == (14 : Int)
